@@ -216,6 +216,20 @@ Example C17_aug_parenthesised_text_example :
 Proof. exact aug_paren_example. Qed.
 Print Assumptions C17_aug_parenthesised_text_example.
 
+(* The closing of a setter call that ends exactly at the end of the text (module without final newline whose last
+   statement is a write): inside [no_overlap], closed by the final flush. *)
+Example C17_write_at_end_of_text_example :
+  changed_module (T [97; 46; 120; 32; 61; 32; 53]) w_get w_set 0 0
+    [ {| o_start := 2; o_end := 3; o_prim := 0; o_tuple := false; o_line_end := 7; o_rhs_primary := true |} ]
+    = Changed (T [97; 46; 115; 101; 116; 95; 120; 40; 53; 41]) /\
+  no_overlap (T [97; 46; 120; 32; 61; 32; 53]) 0 0 None
+    [ {| o_start := 2; o_end := 3; o_prim := 0; o_tuple := false; o_line_end := 7; o_rhs_primary := true |} ] = true /\
+  changed_module (T [97; 46; 120; 32; 42; 61; 32; 51]) w_get w_set 0 0
+    [ {| o_start := 2; o_end := 3; o_prim := 0; o_tuple := false; o_line_end := 8; o_rhs_primary := true |} ]
+    = Changed (T [97; 46; 115; 101; 116; 95; 120; 40; 97; 46; 103; 101; 116; 95; 120; 40; 41; 32; 42; 32; 51; 41]).
+Proof. exact eof_write_example. Qed.
+Print Assumptions C17_write_at_end_of_text_example.
+
 (* `a.x = c.x = 1` -> `a.set_x( c.set_x(1)`: two calls opened, one closed (findings/C17-chained.json). *)
 Theorem C17_chained_write_refuted :
   no_overlap w_chained_src 0 0 None w_chained_occs = false /\
